@@ -114,6 +114,9 @@ pub trait Prover: Debug + Clone + Send + 'static {
                     .map(move |problem| prover.prove(problem)),
             )
         } else {
+            #[cfg(anthem_verif)]
+            use crate::verif::sim::{ThreadPool, channel};
+
             let pool = ThreadPool::new(self.instances());
             let (tx, rx) = channel();
 
